@@ -148,12 +148,49 @@ multiplication (constructs of the language / type names of the crate only, never
   `while i < E && j < F { ..; i += 1; j += 1; }`
                                          (both increments last, in either order; i, j not assigned elsewhere in the body, E, F not changed
                                          by it) Nat.iter (Z.to_nat (Z.min (E - v_i) (F - v_j))) over (i, j, the assigned variables)
+Added for the safegcd kernels (src/modular/safegcd.rs), the wrapper constructors and the three-way comparison (constructs of the
+language / type names of the crate only, never the body of a particular function):
+  UnsatInt<LIMBS>                        struct UnsatInt<LIMBS>(pub [u64; LIMBS]): newtype over a word array, erased (list Z): `.0` / `Self(a)` are
+                                         the identity, `x.0[i]` reads / `x.0[i] = v` writes the i-th word; methods resolve to
+                                         `impl<const LIMBS: usize> UnsatInt<LIMBS>` (items take (LIMBS : nat) first); `UnsatInt::<LIMBS>::MASK`
+  [u64; LIMBS], `[w; LIMBS]`             like [Word; LIMBS] (u64 = Word on the 64-bit target); `[e; LIMBS]` where a word array is expected
+  &[Word], &[u64]                        a slice of words: list Z; x[i] : u64; x.len()
+  [T; k], [[i64; 2]; 2]                  arrays of literal length over any machine integer (signed too) or again such an array: list Z /
+                                         list (list Z); t[i][j] -> nth j (nth i t nil) 0; t[i] = row -> updl_ t i row (updl_: upd_ at any
+                                         element type); array literals of such elements `[[1, 0], [0, 1]]`, `[-t[0][0], -t[0][1]]`
+  type NAME = T;                         a type alias declared in the SAME source file (`type Matrix = [[i64; 2]; 2];`) is read as T
+  u64::MAX                               2^64 - 1
+  #[cfg(target_pointer_width = "32")] { .. }   a block under the 32-bit cfg is not part of the program (skipped; on anything but a block: error);
+                                         `#[cfg(target_pointer_width = "64")] { e }` is the block expression { e }
+  a.wrapping_add(b) / wrapping_sub / wrapping_mul / wrapping_neg at type iN   sadd_ / ssub_ / smul_ / sneg_ (two's complement wrap, as + - * -)
+  a.trailing_zeros()                     ctz_ w a at the width w of the type of a, signed or unsigned (ctz_go_: count of low zero bits of the
+                                         two's complement pattern, w for 0), type u32
+  let (a, mut b) = (e1, 0);              tuple `let` whose right-hand side is a tuple expression: a component that is an untyped literal takes its
+                                         type from the first typed use of the variable it binds (as `let mut b = 0;` does)
+  let m = (1 << k) - 1;                  a `let` of an integer expression whose type nothing inside it fixes (only literals at the typed
+                                         positions): Rust infers the type from the uses of m; the Coq text is produced when the first TYPED use
+                                         of m is met (with the environment of the `let`); never used at a type: error
+  const fn min(a: i64, b: i64) -> i64 { .. }   a nested function item inside a function body: let v_min := (fun (v_a : Z) (v_b : Z) => ..) in;
+                                         its body sees only its parameters (Rust: a nested fn cannot capture); calls `min(x, y)` -> (v_min x y)
+  loop { A; if c { break; } B }          at the top level of the function body of a free, non-generic function without `&mut` parameters; `if c
+                                         { break; }` (no else) may stand at the top level of the loop body any number of times, `break` nowhere
+                                         else.  Rust iterates until the break; the Coq function takes `(fuel : nat)` as its FIRST argument and
+                                         returns `option T`:   match loop_ fuel (fun st => .. ((state), true|false)) (state) with None => None |
+                                         Some st => Some (rest of the function) end, the state being the tuple of the variables the body
+                                         assigns; SrcPrelude.loop_ runs at most fuel iterations and is None when the break was not reached.
+                                         The theorems prove `= Some v` for every fuel above a stated bound, i.e. that the Rust loop TERMINATES
+                                         and returns v.  A guard (`if c { return / panic! }`) in such a function and a call of such a function
+                                         from translated code are errors.
 Anything else is a translation error: the function is emitted as an ill-typed stub so that its equality proof fails
 (reported as a broken proof obligation of the properties that rest on it), never silently skipped.
 """
 import re, sys, os, json
 
 class TErr(Exception):
+    pass
+
+class Untyped(TErr):
+    """an integer expression of literals whose type nothing inside it fixes (`(1 << k) - 1`)"""
     pass
 
 # ------------------------------------------------------------------ lexer
@@ -234,7 +271,8 @@ BITS = {'u8': 8, 'u16': 16, 'u32': 32, 'u64': 64, 'u128': 128, 'choice': 64, 'li
 SBITS = {'i8': 8, 'i16': 16, 'i32': 32, 'i64': 64, 'i128': 128}     # signed machine integers: a Z in [-2^(w-1), 2^(w-1))
 STRUCTS = {'Reciprocal': [('divisor_normalized', 'u64'), ('shift', 'u32'), ('reciprocal', 'u64')]}
 
-LISTS = ('arr', 'slice', 'int', 'warr')      # all `list Z` in Coq; they differ in the methods / element type they have
+LISTS = ('arr', 'slice', 'int', 'warr', 'unsat', 'wslice')      # all `list Z` in Coq; they differ in the methods / element type they have
+FILE_ALIASES = [{}]  # `type NAME = T;` items of the source file of the function being translated
 WRAPPERS = ('NonZero', 'Odd')                # struct NonZero<T>(T), struct Odd<T>(T): erased newtypes, `.0` gives the T
 CG = [None]          # name of the const generic of the free function being translated (`fn f<const L: usize>`); None: LIMBS
 
@@ -259,8 +297,12 @@ def parse_type(s, selfty):
         return 'arr'
     if re.fullmatch(r'\[\s*Limb\s*\]', s):
         return 'slice'
-    if re.fullmatch(r'\[\s*Word\s*;\s*%s\s*\]' % g, s):
+    if re.fullmatch(r'\[\s*(Word|u64)\s*;\s*%s\s*\]' % g, s):
         return 'warr'
+    if re.fullmatch(r'\[\s*(Word|u64)\s*\]', s):
+        return 'wslice'         # &[Word] / &[u64]: a slice of words
+    if re.fullmatch(r'UnsatInt\s*<\s*%s\s*>' % g, s):
+        return 'unsat'          # struct UnsatInt<LIMBS>(pub [u64; LIMBS])
     if re.fullmatch(r'Int\s*<\s*%s\s*>' % g, s):
         return 'int'
     m = re.fullmatch(r'(%s)\s*<(.*)>' % '|'.join(WRAPPERS), s, re.S)
@@ -285,6 +327,15 @@ def parse_type(s, selfty):
         return ('fixarr', m.group(1), int(m.group(2)))      # [u8; 2]: a list of that many integers
     if s in STRUCTS:
         return ('struct', s)
+    m = re.fullmatch(r'\[(.+);\s*(\d+)\s*\]', s, re.S)
+    if m:
+        # [T; k] with a literal k: T a machine integer (signed too) or again such an array ([[i64; 2]; 2])
+        el = parse_type(m.group(1), selfty)
+        if not (el in SBITS or el in ('u8', 'u16', 'u32', 'u64', 'u128') or (isinstance(el, tuple) and el[0] == 'fixarr')):
+            raise TErr('array of %s' % (el,))
+        return ('fixarr', el, int(m.group(2)))
+    if s in FILE_ALIASES[0]:
+        return parse_type(FILE_ALIASES[0][s], selfty)       # `type Matrix = [[i64; 2]; 2];` in the same file
     raise TErr('unsupported type %r' % s)
 
 def split_top(s):
@@ -313,7 +364,9 @@ def coq_type(t):
     if isinstance(t, tuple) and t[0] == 'wrap':
         return coq_type(t[2])
     if isinstance(t, tuple) and t[0] == 'fixarr':
-        return 'list Z'
+        return 'list Z' if not isinstance(t[1], tuple) else 'list (%s)' % coq_type(t[1])
+    if isinstance(t, tuple) and t[0] == 'option':
+        return 'option %s' % coq_type(t[1])
     if t == 'T':
         return 'T'
     if t == 'str':
@@ -325,7 +378,7 @@ def type_owner(t):
     if isinstance(t, tuple) and t[0] == 'wrap': return '%s<%s>' % (t[1], type_owner(t[2]))
     if isinstance(t, tuple) and t[0] == 'ctopt': return 'ConstCtOption<%s>' % type_owner(t[1])
     if isinstance(t, tuple) and t[0] == 'tuple': return '(%s)' % ', '.join(type_owner(x) for x in t[1])
-    r = {'choice': 'ConstChoice', 'limb': 'Limb', 'arr': 'Uint<LIMBS>', 'int': 'Int<LIMBS>'}.get(t)
+    r = {'choice': 'ConstChoice', 'limb': 'Limb', 'arr': 'Uint<LIMBS>', 'int': 'Int<LIMBS>', 'unsat': 'UnsatInt<LIMBS>'}.get(t)
     if r is None: raise TErr('no impl block for type %s' % (t,))
     return r
 
@@ -370,7 +423,7 @@ def dummy(t):
     if isinstance(t, tuple) and t[0] == 'wrap':
         return dummy(t[2])
     if isinstance(t, tuple) and t[0] == 'fixarr':
-        return '(repeat 0 %d)' % t[2]
+        return '(repeat %s %d)' % (dummy(t[1]) if isinstance(t[1], tuple) else '0', t[2])
     if t in SBITS:
         return '0'
     if t == 'bool':
@@ -558,8 +611,8 @@ class P:
             pl = pl[1]
         if pl[0] == 'index':
             base = pl[1]
-            if base[0] == 'field' and base[2] == 'limbs':
-                base = base[1]
+            if base[0] == 'field' and base[2] in ('limbs', '0'):
+                base = base[1]          # x.limbs[i] (Uint) / x.0[i] (UnsatInt): the emitter checks the type of x
             if base[0] == 'var':
                 return ('pidx', base[1], pl[2])
         raise TErr('unsupported assignment target')
@@ -584,10 +637,38 @@ class P:
         out = []
         while not (self.peek()[0] == 'eof' or self.isop('}')):
             if self.isop('#'):
-                self.next(); self.expect('['); depth = 1
+                self.next(); self.expect('['); depth = 1; attr = []
                 while depth:
-                    y = self.next(); depth += (y == ('op', '[')) - (y == ('op', ']'))
+                    y = self.next(); depth += (y == ('op', '[')) - (y == ('op', ']')); attr.append(y[1])
+                if attr[:-1] == ['cfg', '(', 'target_pointer_width', '=', '"32"', ')']:
+                    # `#[cfg(target_pointer_width = "32")] { .. }` : the block is not part of the program on a 64-bit target
+                    if not self.isop('{'): raise TErr('#[cfg(target_pointer_width = "32")] on something other than a block')
+                    self.next(); depth = 1
+                    while depth:
+                        y = self.next()
+                        if y[0] == 'eof': raise TErr('unbalanced block')
+                        depth += (y == ('op', '{')) - (y == ('op', '}'))
                 continue
+            if self.isid('loop') and self.isop('{', 1):
+                self.next(); self.next(); b = self.block(); self.expect('}')
+                out.append(('loop', b)); continue
+            if self.isid('break') and (self.isop(';', 1) or self.isop('}', 1)):
+                self.next(); self.semi(); out.append(('break',)); continue
+            if (self.isid('fn') and self.peek(1)[0] == 'id') or (self.isid('const') and self.isid('fn', 1)):
+                # a nested function item `const fn name(a: T, ..) -> R { .. }` (it cannot capture local variables)
+                if self.isid('const'): self.next()
+                self.next(); name = self.next()[1]; self.expect('('); ps = []
+                while not self.isop(')'):
+                    if self.isid('mut'): self.next()
+                    pn = self.next()
+                    if pn[0] != 'id': raise TErr('parameter of the nested function %s' % name)
+                    self.expect(':'); ps.append((pn[1], self.type_src()))
+                    if self.isop(','): self.next()
+                self.next(); rt = None
+                if self.isop('->'):
+                    self.next(); rt = self.type_src()
+                self.expect('{'); b = self.block(); self.expect('}')
+                out.append(('fn', name, ps, rt, b)); continue
             if self.isid('debug_assert') or self.isid('debug_assert_eq') or self.isid('debug_assert_ne') or \
                     (self.isid('assert') and self.isop('!', 1)):
                 self.next(); self.expect('!'); self.expect('('); depth = 1
@@ -661,7 +742,7 @@ CONSTS = {('Word', 'BITS'): ('64', 'u32'), ('WideWord', 'BITS'): ('128', 'u32'),
           ('Self', 'FALSE'): ('0', 'choice'), ('Self', 'TRUE'): ('(2 ^ 64 - 1)', 'choice'),
           ('ConstChoice', 'FALSE'): ('0', 'choice'), ('ConstChoice', 'TRUE'): ('(2 ^ 64 - 1)', 'choice'),
           ('Limb', 'ZERO'): ('0', 'limb'), ('Limb', 'ONE'): ('1', 'limb'), ('Limb', 'MAX'): ('(2 ^ 64 - 1)', 'limb'),
-          ('Word', 'ZERO'): ('0', 'u64'), ('Word', 'MIN'): ('0', 'u64')}
+          ('Word', 'ZERO'): ('0', 'u64'), ('Word', 'MIN'): ('0', 'u64'), ('u64', 'MAX'): ('(2 ^ 64 - 1)', 'u64')}
 ARR_CONSTS = {'ZERO': '(repeat 0 LIMBS)', 'MAX': '(repeat (2 ^ 64 - 1) LIMBS)'}
 
 def fv(e, acc):
@@ -672,7 +753,7 @@ def fv(e, acc):
         for x in e: fv(x, acc)
     return acc
 
-GENERIC = ('Uint<LIMBS>', 'Int<LIMBS>')     # impl blocks generic over LIMBS: their items take (LIMBS : nat) first
+GENERIC = ('Uint<LIMBS>', 'Int<LIMBS>', 'UnsatInt<LIMBS>')     # impl blocks generic over LIMBS: their items take (LIMBS : nat) first
 OWNERS = ('ConstChoice', 'Limb', 'Reciprocal', 'ConstCtOption<T>') + GENERIC
 CONST_SIGS = {}      # 'Owner::NAME' -> (coq name, type) for the associated constants translated from the source
 MUTS = {}            # key -> names of the `&mut` parameters (their final values are the function's result)
@@ -715,8 +796,8 @@ class Emitter:
     def owner(self, o):
         if o == 'Self':
             if isinstance(self.selfty, tuple) and self.selfty[0] == 'ctopt': return 'ConstCtOption<T>'
-            return {'choice': 'ConstChoice', 'limb': 'Limb', 'arr': 'Uint<LIMBS>', 'int': 'Int<LIMBS>'}.get(self.selfty, self.selfname) or ''
-        return {'Uint': 'Uint<LIMBS>', 'Int': 'Int<LIMBS>', 'ConstCtOption': 'ConstCtOption<T>'}.get(o, o)
+            return {'choice': 'ConstChoice', 'limb': 'Limb', 'arr': 'Uint<LIMBS>', 'int': 'Int<LIMBS>', 'unsat': 'UnsatInt<LIMBS>'}.get(self.selfty, self.selfname) or ''
+        return {'Uint': 'Uint<LIMBS>', 'Int': 'Int<LIMBS>', 'ConstCtOption': 'ConstCtOption<T>', 'UnsatInt': 'UnsatInt<LIMBS>'}.get(o, o)
     def __init__(self, sigs, selfty, selfname, result=None, cg=None, ret_muts=None):
         self.sigs = sigs; self.selfty = selfty; self.selfname = selfname; self.const0 = {}
         self.result = result          # type of the value of the function body (with the final values of `&mut` parameters)
@@ -729,6 +810,10 @@ class Emitter:
         self.uid = 0
         self.uses_extern = False      # the body calls an extern function (or a function that does)
         self.mutparams = ()           # the `&mut [Limb]` parameters of the function being translated (they may be passed on)
+        self.deferred = {}            # `let x = <untyped integer expression>;` : name -> (id, expression, env at the `let`)
+        self.deferred_txt = {}        # id -> coq text, once the first typed use of x has fixed the type
+        self.did = 0
+        self.has_loop = False         # the body has a `loop { .. break .. }`: fuel parameter, result in `option`
     def isint(self, t):
         return t in BITS or t in SBITS
     def unify(self, a, b, what):
@@ -751,6 +836,11 @@ class Emitter:
                 raise TErr('unknown variable %s' % e[1])
             if env[e[1]] is None and self.isint(exp) and exp not in ('choice', 'limb'):
                 env[e[1]] = exp          # `let mut carry = 1;` : the literal's type is fixed by its first typed use
+                if e[1] in self.deferred:
+                    did, dex, denv = self.deferred.pop(e[1])
+                    dc, dt = self.emit(dex, denv, exp)
+                    self.unify(dt, exp, 'the untyped `let %s`' % e[1])
+                    self.deferred_txt[did] = dc
             return 'v_' + e[1], env[e[1]]
         if k == 'path':
             key = tuple(e[1][-2:])
@@ -803,7 +893,7 @@ class Emitter:
                 if t == 'bool':
                     return '(negb %s)' % c, 'bool'
                 if t is None:
-                    raise TErr('! on untyped literal')
+                    raise Untyped('! on untyped literal')
                 if t in SBITS:
                     return '(snot_ %s)' % c, t
                 return '(not_ %d %s)' % (BITS[t], c), t
@@ -819,7 +909,7 @@ class Emitter:
             if op in ('<<', '>>'):
                 a, ta = self.emit(e[2], env, exp)
                 b, tb = self.emit(e[3], env, None)
-                if ta is None: raise TErr('shift of untyped literal')
+                if ta is None: raise Untyped('shift of untyped literal')
                 if ta in SBITS:
                     # signed: `<<` wraps to two's complement, `>>` is the arithmetic shift (floor division, as shr_ on a negative Z)
                     return ('(sshl_ %d %s %s)' % (SBITS[ta], a, b) if op == '<<' else '(shr_ %s %s)' % (a, b)), ta
@@ -840,7 +930,7 @@ class Emitter:
                 return '(%s %s %s)' % (f, a, b), 'bool'
             if t is None:
                 # constant expression of untyped literals: fold in Z (no wrap can be decided) -> keep symbolic, typed by context
-                if exp is None or not self.isint(exp): raise TErr('cannot type constant expression')
+                if exp is None or not self.isint(exp): raise Untyped('cannot type constant expression')
                 t = exp
             if t == 'bool':
                 f = {'&': 'andb', '|': 'orb', '^': 'xorb'}.get(op)
@@ -860,6 +950,11 @@ class Emitter:
             if e[1][0] == 'num' and e[1][2] is None and exp in (None, 'warr'):
                 # `[0; LIMBS]`: a bare integer literal is not a Limb, this is an array of words
                 return '(repeat %s %s)' % (self.emit(e[1], env, 'u64')[0], cgname()), 'warr'
+            if exp == 'warr':
+                # `[w; LIMBS]` where an array of words is expected ([u64; LIMBS])
+                c, t = self.emit(e[1], env, 'u64')
+                if t != 'u64': raise TErr('word array of %s' % (t,))
+                return '(repeat %s %s)' % (c, cgname()), 'warr'
             c, t = self.emit(e[1], env, 'limb')
             if t not in ('limb', 'u64'): raise TErr('array of %s' % t)
             return '(repeat %s %s)' % (c, cgname()), 'arr'
@@ -870,7 +965,8 @@ class Emitter:
             ts = set(t for _, t in parts)
             if len(ts) != 1 or None in ts: raise TErr('array literal with elements of types %s' % (sorted(map(str, ts)),))
             t = ts.pop()
-            if t not in ('u8', 'u16', 'u32', 'u64', 'limb'): raise TErr('array literal of %s' % (t,))
+            if not (t in ('u8', 'u16', 'u32', 'u64', 'u128', 'limb') or t in SBITS or (isinstance(t, tuple) and t[0] == 'fixarr')):
+                raise TErr('array literal of %s' % (t,))
             txt = '(' + ' :: '.join(c for c, _ in parts) + ' :: nil)'
             return txt, (('arrk', len(parts)) if t == 'limb' else ('fixarr', t, len(parts)))
         if k == 'block':
@@ -883,10 +979,12 @@ class Emitter:
         if k == 'index':
             c, t = self.emit(e[1], env, None)
             fix = isinstance(t, tuple) and t[0] == 'fixarr'
-            if t not in ('arr', 'slice', 'warr') and not fix: raise TErr('indexing a %s' % (t,))
+            if t not in ('arr', 'slice', 'warr', 'wslice') and not fix: raise TErr('indexing a %s' % (t,))
             ic, it = self.emit(e[2], env, 'u64')
             if it != 'u64': raise TErr('index of type %s' % (it,))
-            return '(nth (Z.to_nat %s) %s 0)' % (ic, c), (t[1] if fix else 'u64' if t == 'warr' else 'limb')
+            if fix and isinstance(t[1], tuple):
+                return '(nth (Z.to_nat %s) %s nil)' % (ic, c), t[1]          # an array of arrays: the element is a list
+            return '(nth (Z.to_nat %s) %s 0)' % (ic, c), (t[1] if fix else 'u64' if t in ('warr', 'wslice') else 'limb')
         if k == 'field':
             c, t = self.emit(e[1], env, None)
             if t == 'arr' and e[2] == 'limbs':
@@ -895,6 +993,8 @@ class Emitter:
                 return c, 'u64'
             if t == 'int' and e[2] == '0':
                 return c, 'arr'                 # struct Int<LIMBS>(Uint<LIMBS>)
+            if t == 'unsat' and e[2] == '0':
+                return c, 'warr'                # struct UnsatInt<LIMBS>(pub [u64; LIMBS])
             if isinstance(t, tuple) and t[0] == 'wrap' and e[2] == '0':
                 return c, t[2]                  # struct NonZero<T>(T) / Odd<T>(T)
             if isinstance(t, tuple) and t[0] == 'ctopt' and e[2] in ('value', 'is_some'):
@@ -937,6 +1037,10 @@ class Emitter:
                     c, t = self.emit(e[2][0], env, 'arr')       # Int(Uint)
                     self.unify(t, 'arr', 'newtype constructor')
                     return c, ty
+                if ty == 'unsat':
+                    c, t = self.emit(e[2][0], env, 'warr')      # UnsatInt([u64; LIMBS])
+                    self.unify(t, 'warr', 'newtype constructor')
+                    return c, ty
                 if isinstance(ty, tuple) and ty[0] == 'wrap' and path[0] == 'Self':
                     c, t = self.emit(e[2][0], env, ty[2])       # Self(x) in `impl NonZero<..>` / `impl Odd<..>`: erased
                     self.unify(t, ty[2], 'newtype constructor')
@@ -955,13 +1059,30 @@ class Emitter:
                 c, t = self.emit(e[2][0], env, 'arr')
                 if t != 'arr': raise TErr('Uint::new of %s' % (t,))
                 return c, 'arr'
+            if len(path) == 1 and isinstance(env.get(path[0]), tuple) and env[path[0]][0] == 'localfn':
+                # a call of a nested function item
+                _, ptys, rty = env[path[0]]
+                if len(ptys) != len(e[2]): raise TErr('arity of %s' % path[0])
+                parts = []
+                for a, pt in zip(e[2], ptys):
+                    c, t = self.emit(a, env, pt); self.unify(t, pt, 'argument of ' + path[0]); parts.append(c)
+                return '(v_%s %s)' % (path[0], ' '.join(parts)), rty
             return self.call(self.callkey(path), e[2], env)
         if k == 'mcall':
             c, t = self.emit(e[1], env, exp if e[2].startswith('wrapping_') else None)
             name = e[2]
             if (self.isint(t) and t not in ('choice', 'limb')) or t is None:
                 if t is None: raise TErr('method %s on untyped literal' % name)
-                if t in SBITS: raise TErr('method %s on the signed type %s' % (name, t))
+                if name == 'trailing_zeros' and not e[3]:
+                    return '(ctz_ %d %s)' % (SBITS[t] if t in SBITS else BITS[t], c), 'u32'
+                if t in SBITS:
+                    # the wrapping methods of a signed type: two's complement wrap, as the operators
+                    if name in ('wrapping_add', 'wrapping_sub', 'wrapping_mul') and len(e[3]) == 1:
+                        b, tb = self.emit(e[3][0], env, t); self.unify(t, tb, name)
+                        return '(%s %d %s %s)' % ({'wrapping_add': 'sadd_', 'wrapping_sub': 'ssub_', 'wrapping_mul': 'smul_'}[name], SBITS[t], c, b), t
+                    if name == 'wrapping_neg' and not e[3]:
+                        return '(sneg_ %d %s)' % (SBITS[t], c), t
+                    raise TErr('method %s on the signed type %s' % (name, t))
                 w = BITS[t]
                 if name in ('wrapping_add', 'wrapping_sub', 'wrapping_mul'):
                     b, tb = self.emit(e[3][0], env, t); self.unify(t, tb, name)
@@ -985,7 +1106,9 @@ class Emitter:
                 return self.call('Uint<LIMBS>::' + name, [('raw', c, t)] + e[3], env)
             if t == 'int':
                 return self.call('Int<LIMBS>::' + name, [('raw', c, t)] + e[3], env)
-            if t == 'slice' and name == 'len' and not e[3]:
+            if t == 'unsat':
+                return self.call('UnsatInt<LIMBS>::' + name, [('raw', c, t)] + e[3], env)
+            if t in ('slice', 'wslice') and name == 'len' and not e[3]:
                 return '(Z.of_nat (length %s))' % c, 'u64'      # a usize
             if isinstance(t, tuple) and t[0] == 'wrap':
                 # NonZero<T> / Odd<T>: a method of the impl block spelled like the value's type (`impl<const LIMBS: usize>
@@ -1077,6 +1200,8 @@ class Emitter:
         if MUTS.get(key) and not mut_ok:
             raise TErr('call of %s (it has &mut parameters) in expression position' % key)
         cname, ptys, rty = self.sigs[key]
+        if isinstance(rty, tuple) and rty[0] == 'option':
+            raise TErr('call of %s, whose body has a `loop` (its translation takes fuel and returns an option)' % key)
         if len(ptys) != len(args):
             raise TErr('arity of %s' % key)
         if key in EXT_USERS:
@@ -1143,6 +1268,7 @@ class Emitter:
                 for pl in s[1]:
                     if pl != ('pvar', '_'): hit(pl[1])
             if s[0] == 'while': self.assigned(s[2], acc, local)
+            if s[0] == 'loop': self.assigned(s[1], acc, local)
             if s[0] == 'if':
                 self.assigned(s[2], acc, local); self.assigned(s[3] or [], acc, local)
         return acc
@@ -1160,9 +1286,16 @@ class Emitter:
         return 'let v_%s := %s in\n  ' % (name, c)
     def set_idx(self, name, ix, rhs, env):
         """x[ix] = rhs"""
-        if env.get(name) not in ('arr', 'slice', 'warr'): raise TErr('index assignment to %s' % name)
+        fix = isinstance(env.get(name), tuple) and env[name][0] == 'fixarr'
+        if env.get(name) not in ('arr', 'slice', 'warr', 'unsat') and not fix: raise TErr('index assignment to %s' % name)
         ic, it = self.emit(ix, env, 'u64')
-        if env[name] == 'warr':
+        if fix:
+            # [T; k]: an element of type T; an array of arrays is a list of lists (updl_ : the polymorphic upd_)
+            el = env[name][1]
+            c, t2 = self.emit(rhs, env, el)
+            self.unify(t2, el, 'array element')
+            return 'let v_%s := (%s v_%s (Z.to_nat %s) %s) in\n  ' % (name, 'updl_' if isinstance(el, tuple) else 'upd_', name, ic, c)
+        if env[name] in ('warr', 'unsat'):
             c, t2 = self.emit(rhs, env, 'u64')
             if t2 != 'u64': raise TErr('word array element of type %s' % (t2,))
         else:
@@ -1216,6 +1349,15 @@ class Emitter:
             self.unify(bt, t, 'loop bound'); env[v] = t
             parts.append('(%s - v_%s)' % (bc, v))
         return [iv, jv], '(Z.to_nat (Z.min %s %s))' % (parts[0], parts[1])
+    def loop_body(self, b, env, tup):
+        """body of a `loop`: `if c { break; }` (no else) may stand at the top level of the body, any number of times"""
+        for j, x in enumerate(b):
+            if x[0] == 'if' and x[2] == [('break',)] and x[3] is None:
+                pre = self.stmts(b[:j], env, None, '')
+                cc, ct = self.emit(x[1], env, 'bool')
+                if ct != 'bool': raise TErr('if condition of type %s' % (ct,))
+                return pre + 'if %s then ((%s), true) else\n  %s' % (cc, tup, self.loop_body(b[j + 1:], env, tup))
+        return self.stmts(b, env, None, '((%s), false)' % tup)
     def stmts(self, ss, env, rty, tail, top=False):
         """-> coq text; `tail` is the text that closes a non-returning block (the state tuple of a loop body / if branch);
         `top`: the block is the function body (a `panic!` guard may only stand there)"""
@@ -1272,9 +1414,54 @@ class Emitter:
                     out += "let %s := %s in\n  " % ("'(%s)" % self.tup(names) if len(names) > 1 else self.tup(names), c)
             elif s[0] == 'expr':
                 raise TErr('expression statement not supported')
+            elif s[0] == 'fn':
+                # nested function item: a local function (Rust: it cannot capture the variables of the enclosing function)
+                ptys = [parse_type(ts, self.selfty) for _, ts in s[2]]
+                if s[3] is None: raise TErr('nested function without a return type')
+                frt = parse_type(s[3], self.selfty)
+                save = self.ret_t
+                fb = self.stmts(s[4], dict(zip([n for n, _ in s[2]], ptys)), frt, None)
+                self.ret_t = save
+                env[s[1]] = ('localfn', ptys, frt)
+                out += 'let v_%s := (fun %s => %s) in\n  ' % (s[1], ' '.join('(v_%s : %s)' % (n, coq_type(t)) for (n, _), t in zip(s[2], ptys)), fb)
+            elif s[0] == 'loop':
+                # `loop { A; if c { break; } B }` at the top level of the function body: loop_ fuel step state, where step returns the new
+                # state and whether the `break` was reached; None when `fuel` iterations do not reach it
+                if not top or not self.has_loop: raise TErr('`loop` outside the function body block')
+                b = s[1]
+                vs = [v for v in self.assigned(b, []) if v in env]
+                if not vs: raise TErr('loop that assigns nothing')
+                tup = self.tup(vs)
+                env2 = dict(env)
+                body = self.loop_body(b, env2, tup)
+                for v in vs:
+                    env[v] = env2[v]; self.const0[v] = False
+                for v in env:
+                    if env[v] is None: env[v] = env2.get(v)
+                rest = self.stmts(ss[i + 1:], env, rty, tail, top)
+                return out + "match loop_ fuel (fun st => let '(%s) := st in\n  %s) (%s) with\n  | None => None\n  | Some st => let '(%s) := st in\n  Some (%s)\n  end" % (tup, body, tup, tup, rest)
+            elif s[0] == 'let' and s[2] is None and s[1][0] == 'tup' and s[3][0] == 'tuple' and len(s[1][1]) == len(s[3][1]):
+                # `let (a, mut b) = (e1, 0);` : a component that is an untyped literal takes its type from the first typed use of the
+                # variable it is bound to (like `let mut b = 0;`)
+                parts = [self.emit(x, env, None) for x in s[3][1]]
+                for (c, t), q in zip(parts, s[1][1]):
+                    if t is None and q[0] != 'id': raise TErr('untyped literal in tuple')
+                p = self.pat(s[1], ('tuple', [t for _, t in parts]), env)
+                out += 'let %s := %s in\n  ' % (p, '(' + ', '.join(c for c, _ in parts) + ')')
             elif s[0] == 'let':
                 ety = parse_type(s[2], self.selfty) if s[2] else None
-                c, t = self.emit(s[3], env, ety)
+                try:
+                    c, t = self.emit(s[3], env, ety)
+                except Untyped:
+                    # `let mask = (1 << k) - 1;` : an integer expression whose type nothing inside it fixes; Rust infers it from the uses
+                    # of the variable: the text is produced when the first typed use is met
+                    if ety is not None or s[1][0] != 'id': raise
+                    did = self.did; self.did += 1
+                    self.deferred[s[1][1]] = (did, s[3], dict(env))
+                    env[s[1][1]] = None; self.const0[s[1][1]] = False
+                    out += 'let v_%s := \x00D%d\x00 in\n  ' % (s[1][1], did)
+                    i += 1
+                    continue
                 if t is None:
                     t = ety                   # untyped literal: fixed by the first typed use (see 'var')
                 if ety: self.unify(t, ety, 'let')
@@ -1300,13 +1487,14 @@ class Emitter:
             elif s[0] == 'if' and s[2] == [('panic',)] and s[3] is None:
                 # `if c { panic!(..) }` guard: the rest of the function is the else branch
                 if not top or self.result is None: raise TErr('panic! outside the function body block')
+                if self.has_loop: raise TErr('guard in a function whose body has a `loop`')
                 cc, ct = self.emit(s[1], env, 'bool')
                 if ct != 'bool': raise TErr('if condition of type %s' % (ct,))
                 rest = self.stmts(ss[i + 1:], env, rty, tail, top)
                 return out + 'if %s then (panic_ %s) else\n  %s' % (cc, dummy(self.result), rest)
             elif s[0] == 'if' and len(s[2]) == 1 and s[2][0][0] == 'return' and s[3] is None:
                 # `if c { return e; }` guard at the top level of the function body: the rest of the function is the else branch
-                if not top or rty is None: raise TErr('return outside the function body block')
+                if not top or rty is None or self.has_loop: raise TErr('return outside the function body block')
                 cc, ct = self.emit(s[1], env, 'bool')
                 if ct != 'bool': raise TErr('if condition of type %s' % (ct,))
                 rc, rt = self.emit(s[2][0][1], env, rty)
@@ -1317,7 +1505,7 @@ class Emitter:
             elif s[0] == 'if' and len(s[2]) > 1 and s[2][-1][0] == 'return' and s[3] is None and \
                     not any(x[0] in ('return', 'while') for x in s[2][:-1]):
                 # `if c { s1; ..; return e; }` guard at the top level of the function body
-                if not top or rty is None: raise TErr('return outside the function body block')
+                if not top or rty is None or self.has_loop: raise TErr('return outside the function body block')
                 cc, ct = self.emit(s[1], env, 'bool')
                 if ct != 'bool': raise TErr('if condition of type %s' % (ct,))
                 inner = self.stmts(s[2][:-1] + [('ret', s[2][-1][1])], dict(env), rty, None, top)
@@ -1412,7 +1600,7 @@ class Emitter:
         if tail is None: raise TErr('block has no value')
         return out + tail
 
-SELFTY = {'ConstChoice': 'choice', 'Reciprocal': ('struct', 'Reciprocal'), 'Limb': 'limb', 'Uint<LIMBS>': 'arr', 'Int<LIMBS>': 'int',
+SELFTY = {'ConstChoice': 'choice', 'Reciprocal': ('struct', 'Reciprocal'), 'Limb': 'limb', 'Uint<LIMBS>': 'arr', 'Int<LIMBS>': 'int', 'UnsatInt<LIMBS>': 'unsat',
           'ConstCtOption<T>': ('ctopt', 'T')}
 
 def impl_selfty(impl):
@@ -1421,9 +1609,14 @@ def impl_selfty(impl):
     if impl is None or impl in SELFTY: return SELFTY.get(impl)
     return parse_type(impl, None)
 
+def file_aliases(src):
+    """`type NAME = T;` items at the top level of a source file (column 0: not the associated types of impl blocks)"""
+    return dict(re.findall(r'^(?:pub(?:\([a-z]+\))?\s+)?type\s+(\w+)\s*=\s*([^\n]+);[ \t]*$', src, re.M))
+
 def translate(src, name, cname, impl, sigs, trait=None, extern=False):
     """-> parameters, declared return type, body text, type of Self, names of the `&mut` parameters"""
     selfty = impl_selfty(impl)
+    FILE_ALIASES[0] = file_aliases(src)
     params, ret, body, generics = find_fn(src, name, impl, trait)
     cg = None
     del EXTRA_CG[:]
@@ -1480,7 +1673,7 @@ def find_const(src, name, impl):
 def gen_group(repo, group, sigs):
     """group: {'file': out, 'fns': [ {src, name | const, impl, coq} ... ]} -> coq text, report; `sigs` accumulates over the groups"""
     bodies = []; report = []
-    parsed = []
+    parsed = []; src_of = {}
     externs = []
     CUR_GROUP[0] = group['file']
     for f in group['fns']:
@@ -1507,6 +1700,7 @@ def gen_group(repo, group, sigs):
             continue
         if 'const' in f:
             key = f['impl'] + '::' + f['const']
+            src_of[key] = src
             try:
                 tsrc, esrc = find_const(src, f['const'], f['impl'])
                 cty = parse_type(tsrc, SELFTY.get(f['impl']))
@@ -1516,6 +1710,7 @@ def gen_group(repo, group, sigs):
                 parsed.append((f, key, None, None, None, None, str(e), None))
             continue
         key = (f['impl'] + '::' + f['name']) if f.get('impl') else f['name']
+        src_of[key] = src
         try:
             CG[0] = None
             ps, rty, body, selfty, muts, cg = translate(src, f['name'], f['coq'], f.get('impl'), sigs, f.get('trait'))
@@ -1530,6 +1725,10 @@ def gen_group(repo, group, sigs):
                 else:
                     rty = pt[muts[0]] if len(muts) == 1 else ('tuple', [pt[m] for m in muts])
             if cg: FREE_GENERIC.add(key)
+            if re.search(r'\bloop\s*\{', body):
+                # a `loop`: the Coq function takes (fuel : nat) first and returns an option; it cannot be called by translated code
+                if muts or cg or f.get('impl'): raise TErr('`loop` in a method / generic function / function with `&mut` parameters')
+                rty = ('option', rty)
             sigs[key] = (f['coq'], [t for _, t in ps], rty)
             parsed.append((f, key, ps, rty, body, selfty, None, cg))
         except TErr as e:
@@ -1541,6 +1740,10 @@ def gen_group(repo, group, sigs):
         if err is None:
             try:
                 em = Emitter(sigs, selfty, f.get('impl'), rty, cg, MUTS.get(key) if key in MUTRET else None)
+                FILE_ALIASES[0] = file_aliases(src_of[key])
+                inner = rty
+                if isinstance(rty, tuple) and rty[0] == 'option':
+                    em.has_loop = True; inner = rty[1]; em.result = inner
                 env = {n: t for n, t in ps if n != 'self'}
                 em.mutparams = tuple(MUTS.get(key, ()))
                 toks = lex(body)
@@ -1552,7 +1755,11 @@ def gen_group(repo, group, sigs):
                     tl = em.tup(MUTS[key])
                     code = em.stmts(ss, env, None, '(%s)' % tl if len(MUTS[key]) > 1 else tl, top=True)
                 else:
-                    code = em.stmts(ss, env, rty, '', top=True)
+                    code = em.stmts(ss, env, inner, '', top=True)
+                    if em.has_loop and not code.lstrip().endswith('end') : raise TErr('`loop` not at the top level of the function body')
+                for did in range(em.did):
+                    if did not in em.deferred_txt: raise TErr('`let` of an untyped integer expression that is never used at a type')
+                    code = code.replace('\x00D%d\x00' % did, em.deferred_txt[did])
                 for uid in range(em.uid):
                     if uid not in em.uninit_t: raise TErr('`let` without a value: the variable is never assigned a typed value')
                     code = code.replace('\x00U%d\x00' % uid, dummy(em.uninit_t[uid]))
@@ -1562,6 +1769,8 @@ def gen_group(repo, group, sigs):
                     args = '(LIMBS : nat) ' + args
                 if cg:
                     args = '(%s : nat) ' % cg + args
+                if em.has_loop:
+                    args = '(fuel : nat) ' + args
                 if f.get('impl') == 'ConstCtOption<T>':
                     args = '{T : Type} ' + args
                 if 'const' in f:
